@@ -255,6 +255,15 @@ def run(ctx):
             ctx.bad('C17.3-key-fields', nm, 'the key depends only on %s of the reply pid; %s is not part of it, so pids differing only there share one table entry: a reply (or an unrelated message) is handed to the wrong caller'
                     % (sorted(fs), sorted(WANT - fs)), ctx.where(SB, sbb), key='CONST:rpc-key-fields:%s:missing:%s' % (nm, ','.join(sorted(WANT - fs))))
 
+    # ---- dependencies of "the reply addressed to it and only that one" outside node.rs -----------------------------------
+    # (a) the reply pid is unique among outstanding calls only if the allocator never re-issues: nobody but allocate() moves the counters
+    from .c16 import counter_writers
+    counter_writers(ctx, 'C17.2-allocator-exclusive')
+    # (b) the router matches on the pid as decoded: the decoder must not fold different pids of the peer onto one
+    ctx.rule('C17.3-pid-decoded-verbatim', 'the pid a reply is addressed to is looked up as decoded: every pid parser hands id, serial and creation to the constructor unchanged', floor=4)
+    from ..etf import check_identifier_fields_verbatim
+    check_identifier_fields_verbatim(ctx, 'C17.3-pid-decoded-verbatim')
+
     # ---- clause 4: consuming lookup in the router ---------------------------------------------
     ctx.rule('C17.4-consuming-lookup', 'the router takes the sender out of the map (remove), so a duplicate or late reply finds nothing; the reply is sent on the removed sender', floor=1)
     if Br is not None:
